@@ -179,14 +179,15 @@ func VerifyYouVersionState(prev, curr *types.Header) (err error) {
 		} else {
 			// 2.2 still on-going
 			isValid = isValid && curr.NextVersion == prev.NextVersion
+			// the voting window is fixed when the proposal is made
+			isValid = isValid && curr.NextVoteBefore == prev.NextVoteBefore
 			if curr.NextApprovals < prevProto.UpgradeThreshold {
-				isValid = isValid &&
-					curr.NextVoteBefore == prev.NextVoteBefore &&
-					curr.NextVoteBefore > currentRound
+				isValid = isValid && curr.NextVoteBefore > currentRound
 			}
+			// an approval only counts inside the voting window
 			isValid = isValid &&
 				(curr.NextApprovals == prev.NextApprovals ||
-					curr.NextApprovals == prev.NextApprovals+1)
+					(curr.NextApprovals == prev.NextApprovals+1 && currentRound < prev.NextVoteBefore))
 			isValid = isValid && curr.NextSwitchOn == prev.NextSwitchOn
 		}
 	} else {
